@@ -365,25 +365,181 @@ func c41RunStep(g *d2graph.Graph, board []string, op *c37Op) *c41Step {
 	return st
 }
 
+// c41Opts: how a history is driven.
+//   chain  continue from the graph the edit RETURNED (as an editor does) instead of a fresh compile of its text
+//   undo   probability that a successful step is followed by steps that revisit earlier source texts:
+//          set X / set Y / set X, create / delete / create, rename there / back / there, move there / back / there
+type c41Opts struct {
+	chain bool
+	undo  float64
+}
+
+// c41Follow builds a follow-up operation on the current graph of the addressed board (nil: not applicable).
+type c41Follow func(r *Rng, boardG *d2graph.Graph) *c37Op
+
+func c41FindObj(pg *c37PGraph, id string) *c37PObj {
+	for _, o := range pg.Rows {
+		if o.ID == id {
+			return o
+		}
+	}
+	return nil
+}
+
+func c41G12(boardG *d2graph.Graph, st c38Step) *c37Op {
+	if o := c38ResolveOp(c38Project(boardG), st); o != nil {
+		return c37FromG12(o)
+	}
+	return nil
+}
+
+// c41FollowUps: the operations that bring the text back to an earlier state and forth again.
+func c41FollowUps(st *c41Step) []c41Follow {
+	op := st.op
+	setTo := func(val func(r *Rng) string) c41Follow {
+		return func(r *Rng, boardG *d2graph.Graph) *c37Op {
+			pg := c37Project(boardG)
+			n := &c37Op{Kind: op.Kind, Key: op.Key, Val: val(r), attr: op.attr}
+			if op.Kind == "set-obj" {
+				if n.tgt = c41FindObj(pg, op.tgt.ID); n.tgt == nil {
+					return nil
+				}
+			} else {
+				for _, e := range pg.Edges {
+					if e.ID == op.tedge.ID {
+						n.tedge = e
+					}
+				}
+				if n.tedge == nil || n.tedge.Src == nil || n.tedge.Dst == nil {
+					return nil
+				}
+			}
+			return n
+		}
+	}
+	again := func(r *Rng, boardG *d2graph.Graph) *c37Op {
+		pg := c37Project(boardG)
+		switch op.Kind {
+		case "create-obj":
+			return &c37Op{Kind: op.Kind, Key: op.Key, keyPath: op.keyPath, unq: op.unq}
+		case "create-edge":
+			return &c37Op{Kind: op.Kind, Key: op.Key, eid: op.eid}
+		}
+		_ = pg
+		return nil
+	}
+	switch op.Kind {
+	case "set-obj", "set-edge":
+		return []c41Follow{
+			setTo(func(r *Rng) string { return c37SetValue(r, op.attr) }),
+			setTo(func(r *Rng) string { return op.Val }),
+		}
+	case "create-obj":
+		key := st.res.newKey
+		return []c41Follow{
+			func(r *Rng, boardG *d2graph.Graph) *c37Op { return c41G12(boardG, c38Step{kind: "delobj", key: key}) },
+			again,
+		}
+	case "create-edge":
+		if op.eid.hasIdx {
+			return nil
+		}
+		key := st.res.newKey
+		return []c41Follow{
+			func(r *Rng, boardG *d2graph.Graph) *c37Op { return c41G12(boardG, c38Step{kind: "deledge", key: key}) },
+			again,
+		}
+	case "rename":
+		if op.g12 == nil || op.g12.tgt == nil {
+			return nil
+		}
+		oldID, oldName := op.g12.tgt.ID, op.g12.tgt.Name
+		newID := st.res.newKey
+		if op.g12.tgt.Par != nil {
+			newID = op.g12.tgt.Par.ID + "." + newID
+		}
+		newName := op.Val
+		return []c41Follow{
+			func(r *Rng, boardG *d2graph.Graph) *c37Op {
+				return c41G12(boardG, c38Step{kind: "rename", key: newID, arg: oldName})
+			},
+			func(r *Rng, boardG *d2graph.Graph) *c37Op {
+				return c41G12(boardG, c38Step{kind: "rename", key: oldID, arg: newName})
+			},
+		}
+	case "move":
+		if op.g12 == nil || op.g12.tgt == nil {
+			return nil
+		}
+		oldID, newID, incl := op.Key, op.Val, op.g12.Incl
+		return []c41Follow{
+			func(r *Rng, boardG *d2graph.Graph) *c37Op {
+				return c41G12(boardG, c38Step{kind: "move", key: newID, arg: oldID, incl: incl})
+			},
+			func(r *Rng, boardG *d2graph.Graph) *c37Op {
+				return c41G12(boardG, c38Step{kind: "move", key: oldID, arg: newID, incl: incl})
+			},
+		}
+	}
+	return nil
+}
+
 // c41History: random edits addressed to random boards.
-func c41History(r *Rng, text string, steps int, emit func(st *c41Step, s int) bool) {
+func c41History(r *Rng, text string, steps int, opts c41Opts, emit func(st *c41Step, s int) bool) {
 	g, err := c38Compile(text)
 	if err != nil {
 		return
 	}
+	var pending []c41Follow
+	var pendingBoard []string
 	for s := 0; s < steps; s++ {
-		boards := c41ProjectAll(g).all()
-		b := boards[r.Intn(len(boards))]
-		if len(boards) > 1 && r.Chance(0.6) { // prefer nested boards
-			b = boards[1+r.Intn(len(boards)-1)]
+		var op *c37Op
+		var board []string
+		follow := len(pending) > 0
+		if follow {
+			mk := pending[0]
+			pending = pending[1:]
+			board = pendingBoard
+			func() {
+				defer func() {
+					if e := recover(); e != nil {
+						op = nil
+					}
+				}()
+				if bg := d2oracle.GetBoardGraph(g, board); bg != nil {
+					op = mk(r, bg)
+				}
+			}()
+			if op == nil {
+				pending = nil
+				continue
+			}
+		} else {
+			boards := c41ProjectAll(g).all()
+			b := boards[r.Intn(len(boards))]
+			if len(boards) > 1 && r.Chance(0.6) { // prefer nested boards
+				b = boards[1+r.Intn(len(boards)-1)]
+			}
+			op = c41PickOp(r, b.g)
+			board = b.Path
+			if op == nil {
+				continue
+			}
 		}
-		op := c41PickOp(r, b.g)
-		if op == nil {
-			continue
-		}
-		st := c41RunStep(g, b.Path, op)
+		st := c41RunStep(g, board, op)
 		if !emit(st, s) {
 			return
+		}
+		switch {
+		case follow && st.after == nil:
+			pending = nil // the way back was refused
+		case !follow && st.after != nil && r.Chance(opts.undo):
+			pending = c41FollowUps(st)
+			pendingBoard = board
+		}
+		if opts.chain && st.after != nil {
+			g = st.res.g
+			continue
 		}
 		g, err = c38Compile(st.next)
 		if err != nil {
@@ -463,6 +619,29 @@ func c41AttrScalar(a *d2graph.Attributes, key string) *d2graph.Scalar {
 	return nil
 }
 
+func c41EdgeAttrScalar(e *d2graph.Edge, key string) *d2graph.Scalar {
+	for _, side := range []struct {
+		pfx string
+		a   *d2graph.Attributes
+	}{{"source-arrowhead.", e.SrcArrowhead}, {"target-arrowhead.", e.DstArrowhead}} {
+		if strings.HasPrefix(key, side.pfx) {
+			if side.a == nil {
+				return nil
+			}
+			switch key[len(side.pfx):] {
+			case "shape":
+				return &side.a.Shape
+			case "label":
+				return &side.a.Label
+			case "style.filled":
+				return side.a.Style.Filled
+			}
+			return nil
+		}
+	}
+	return c41AttrScalar(&e.Attributes, key)
+}
+
 // c41KFBefore: signatures of the recorded defects, decided on the input (graph before + board + operation).
 func c41KFBefore(g *d2graph.Graph, board []string, op *c37Op) []string {
 	if len(board) == 0 {
@@ -506,7 +685,7 @@ func c41KFBefore(g *d2graph.Graph, board []string, op *c37Op) []string {
 			kf = append(kf, "C41-set-inherited-value-edits-base-board")
 		}
 	case "set-edge":
-		if sc := c41AttrScalar(&op.tedge.edge.Attributes, op.attr); sc != nil && sc.MapKey != nil && !inBoard[sc.MapKey] {
+		if sc := c41EdgeAttrScalar(op.tedge.edge, op.attr); sc != nil && sc.MapKey != nil && !inBoard[sc.MapKey] {
 			kf = append(kf, "C41-set-inherited-value-edits-base-board")
 		}
 	case "move":
@@ -691,7 +870,7 @@ func c41Gen(r *Rng, tier string, n int) []Case {
 	for _, t := range c41Corpus {
 		out = append(out, c41ReplaceCases(r.Fork(), t, "corpus")...)
 		for k := 0; k < 3; k++ {
-			c41History(r.Fork(), t, 8, emit("corpus"))
+			c41History(r.Fork(), t, 8, c41Opts{undo: 0.15}, emit("corpus"))
 		}
 	}
 	for len(out) < n {
@@ -700,7 +879,7 @@ func c41Gen(r *Rng, tier string, n int) []Case {
 			continue
 		}
 		out = append(out, c41ReplaceCases(r.Fork(), text, "gen")...)
-		c41History(r.Fork(), text, r.Range(1, 12), emit("gen"))
+		c41History(r.Fork(), text, r.Range(1, 12), c41Opts{undo: 0.15}, emit("gen"))
 	}
 	return out
 }
